@@ -1,8 +1,12 @@
 -------------------------- MODULE NP2ConvertTrace --------------------------
 (***************************************************************************)
 (* code -> spec for C04.  One trace = one history of real NP2Converter      *)
-(* runs on one directory (fresh converter object per run, options per run,  *)
-(* possibly an interruption injected at one instrumentation point).  Each   *)
+(* runs on one directory (fresh converter object per run, or the same object *)
+(* again, or an object constructed before the earlier runs; options per run, *)
+(* possibly an interruption injected at one instrumentation point).  The     *)
+(* first directory is whatever the history found (other files / output of    *)
+(* another recording in the shank folders, a second form of the original).   *)
+(* Each   *)
 (* record is (label of the step about to execute, directory projected       *)
 (* before it, check_completed of the object); "begin" carries the options,  *)
 (* "end" the status the run returned ("crashed" for an injected             *)
@@ -21,6 +25,7 @@ Traces == JsonDeserialize(IOEnv.TRACE_FILE)
 VARIABLES kind, fs, opts, rpc, widx, cs, cph, csub, checkDone, verified, status, nruns, fs0, tid, pos, prop, impl
 
 C == INSTANCE NP2Convert WITH MaxRuns <- 1000, Kinds <- {}
+Yes == TRUE      \* NP2ConvertTrace.cfg: runs restricted to one shank are accepted (SubRuns of NP2Convert)
 
 cvars == <<kind, fs, opts, rpc, widx, cs, cph, csub, checkDone, verified, status, nruns, fs0>>
 vars == <<cvars, tid, pos, prop, impl>>
@@ -56,7 +61,7 @@ ActionFor(label) ==
 Init ==
     /\ tid \in 1..Len(Traces)
     /\ kind = R.kind /\ fs = St(1).fs
-    /\ opts = [ow |-> FALSE, chk |-> FALSE, cmp |-> FALSE, del |-> FALSE, part |-> FALSE]
+    /\ opts = [ow |-> FALSE, chk |-> FALSE, cmp |-> FALSE, del |-> FALSE, part |-> FALSE, cb |-> FALSE, sub |-> FALSE]
     /\ rpc = "idle" /\ widx = 0 /\ cs = 0 /\ cph = "ap" /\ csub = "stale" /\ checkDone = FALSE /\ verified = FALSE
     /\ status = "none" /\ nruns = 0 /\ fs0 = fs
     /\ pos = 1 /\ prop = "" /\ impl = ""
